@@ -1132,7 +1132,7 @@ def run(ctx, n_override=None):
                 'teaching each commodity its decimals; rules before, between and after the transactions; non-trivial = at least one rule '
                 'precedes the transaction and the text requires at least one generated posting; distinct by transaction text + the '
                 'rules before it')
-    n = n_override or ctx.scale(800, 5000)
+    n = n_override or ctx.scale(600, 5000)
     jobs = []
     for k, items in enumerate(fixed_journals()):
         jobs.append(items)
